@@ -220,7 +220,7 @@ impl Outcome {
                 let sig = x.get("sig").and_then(|s| s.as_str()).or_else(|| x.get("op").and_then(|s| s.as_str())).unwrap_or("?").to_string();
                 let c = per.entry(sig).or_insert(0);
                 *c += 1;
-                if *c <= 3 && res.len() < 60 {
+                if (*c <= 3 && res.len() < 60) || std::env::var("VERIF_KEEP_ALL").is_ok() {
                     res.push(x.clone());
                 }
             }
